@@ -11,6 +11,7 @@ import sys
 
 from . import gen, simfs
 from .core import BudgetExceeded, rng, sunk_stdout
+from .minimise import ddmin
 from .intr import exc_info_in_tree
 
 SIM_PATH = '/simfs/ballots.blt'
@@ -110,6 +111,11 @@ REGRESSION_INPUTS = [
     ('F7', '3' * 300 + ' 1\n1 ' + '9' * 30 + ' 0\n0\n"A"\n"t"\n'),
     ('F7b', '18446744073709551616 1\n1 18446744073709551616 0\n0\n"A"\n"t"\n'),
     ('F7c', '70000 1\n1 65536 0\n0\n"A"\n"t"\n'),
+    ('F3b', '3 1\n' + '9' * 4300 + ' 1 0\n2 2 0\n1 3 0\n0\n"A"\n"B"\n"C"\n"t"\n'),
+    ('format-option', '3 1 [{name}] 1 1 0 0'),
+    ('format-option-b', '3 1\n[{0.a} x ]\n1 1 0\n0'),
+    ('long-id', '2 1\n(0123456789abcdef0123456789abcdef0123) 1 0\n(fedcba9876543210fedcba9876543210fedc) 2 1 0\n0\n"A"\n"B"\n"t"\n'),
+    ('long-rank', '2 1\n[nick aaaaaaaaaaaaaaaaaaaaaaaaaaaaaaaaaaaa bbbbbbbbbbbbbbbbbbbbbbbbbbbbbbbbbbbb]\n1 aaaaaaaaaaaaaaaaaaaaaaaaaaaaaaaaaaaa=bbbbbbbbbbbbbbbbbbbbbbbbbbbbbbbbbbbb 0\n1 bbbbbbbbbbbbbbbbbbbbbbbbbbbbbbbbbbbb 0\n0\n"A"\n"B"\n"t"\n'),
     ('zero-candidates', '0 1 0 0'),
     ('zero-candidates-b', '0 0 0 title'),
     ('negative-seats', '3 -1\n1 1 0\n1 2 0\n1 3 0\n0\n"A"\n"B"\n"C"\n"t"\n'),
@@ -121,7 +127,8 @@ REGRESSION_INPUTS = [
 ]
 
 #: alphabet of the exhaustive tiny-soup arm: every token sequence up to SOUP_LEN over it is read
-SOUP_ALPHABET = ['0', '1', '2', '3', '-1', '"a"', '"b', 'c"', 'x', '[tie', '[nick', ']', '1]', '(i)', '1=2', '#', '/*', '*/']
+SOUP_ALPHABET = ['0', '1', '2', '3', '-1', '"a"', '"b', 'c"', 'x', '[tie', '[nick', ']', '1]', '(i)', '1=2', '#', '/*', '*/',
+                 '[{0}]']
 SOUP_LEN = 4
 
 
@@ -195,7 +202,7 @@ def gen_bases(R, seed, tier, count, size_cap):
 SOUP = ['0', '1', '2', '3', '4', '7', '10', '-1', '-2', '-0', '00', '1=2', '2=3=1', '=', '1=', '=1', '[tie', '[nick',
         '[withdrawn', '[undeclared', '[droop', '[bogus', ']', '[tie]', '[nick]', '[droop]', '[', '(', ')', '(b1)',
         '(b', '1)', '"', '""', '"A"', '"A', 'B"', '#', '/*', '*/', '/*x*/', 'a', 'c1', 'A', '-', '--1', '1.5', '1e3',
-        '０', '٣', '²', '﻿', '\x00', '\x85', ' ', '\x1c', 'é', '李', '\U0001f600', '9' * 30]
+        '[{x}', '[{}]', '[{0.a}]', '[%s]', '[%(x)s', '{0}', '%d', '０', '٣', '²', '﻿', '\x00', '\x85', ' ', '\x1c', 'é', '李', '\U0001f600', '9' * 30]
 
 IO_FAULTS = ('ENOENT', 'EACCES', 'EISDIR', 'EMFILE', 'EIO-before', 'EIO-after')
 
@@ -325,6 +332,13 @@ def enumerate_faults(data):
     yield [['empty']], None
     yield [['blank']], None
     yield [], 'PATH-EMPTY'
+    if n <= 420:
+        # a token replaced by a long run of one character plus a troublesome ending (what catastrophic
+        # backtracking and recursion need and single-byte damage never produces)
+        for (a, b) in spans:
+            for ch in (0x31, 0x61):
+                for suffix in (b'', b'==', b'((', b'))', b'=', b'"', b'_x'):
+                    yield [['drop', a, b - a], ['insert', a, (bytes([ch]) * 40 + suffix).hex()]], None
 
 
 # --------------------------------------------------------------------------
@@ -797,7 +811,6 @@ def run_replay(R, obj):
 
 def minimise(R, seed, v):
     "ddmin over the fault list, then over the lines and tokens of the faulted file (kept as `reduced`)"
-    from .minimise import ddmin     # pylint: disable=import-outside-toplevel
     signal.signal(signal.SIGALRM, _alarm)
     target = vclass(v)
     if v['cls'] == 'hang':
